@@ -260,6 +260,10 @@ def mathMin : List Int → R Int
 /-- trusted law of Go's `math.Mod` on integral arguments with y ≠ 0: the truncated remainder (sign of x). -/
 def goMod (x y : Int) : Int := Int.tmod x y
 
+/-- `math.Mod` gives its result — also a zero — the sign of x: a zero remainder of a negative dividend is −0
+    (x is an exact integer here, never −0).  `luaModulo` keeps it: neither `v < 0` nor `v > 0` holds for −0. -/
+def goModNegZero (x y : Int) : Bool := x < 0 ∧ goMod x y = 0
+
 /-- mathFmod is `math.Mod(x, y)`, arguments in this order. -/
 def mathFmod (x y : Int) : Int := goMod x y
 
